@@ -5,4 +5,5 @@ let () =
   | [| _; "app" |] -> Run_app.run ()
   | [| _; "ms" |] -> Run_ms.run ()
   | [| _; "keys" |] -> Run_keys.run ()
+  | [| _; "codec" |] -> Run_codec.run ()
   | _ -> prerr_endline "usage: modelrun <engine> < ops"; exit 2
